@@ -234,7 +234,7 @@ func (q *PathQ) enter(st *PathState, pred *ssa.BasicBlock) {
 		u := upd{phi: phi}
 		if st.Has(op) {
 			u.tracked = true
-		} else if c, ok := st.ConstOf(op); ok {
+		} else if c, ok := st.ConstOf(op); ok && branchRelevant(phi) {
 			u.c = c
 		}
 		upds = append(upds, u)
@@ -534,3 +534,49 @@ func BoolConst(b bool) *ssa.Const {
 }
 
 func constantBool(b bool) constant.Value { return constant.MakeBool(b) }
+
+var relevantCache = map[*ssa.Phi]bool{}
+
+// branchRelevant: the phi (possibly through other phis) feeds a comparison, a len(), a NOT or a branch,
+// i.e. knowing its constant value on a path can fold a branch. Other phis (e.g. channel variables that
+// only feed a select) are not recorded, which keeps the path-state space small.
+func branchRelevant(phi *ssa.Phi) bool {
+	if r, ok := relevantCache[phi]; ok {
+		return r
+	}
+	seen := map[ssa.Value]bool{}
+	var walk func(v ssa.Value, d int) bool
+	walk = func(v ssa.Value, d int) bool {
+		if seen[v] || d > 5 {
+			return false
+		}
+		seen[v] = true
+		for _, r := range Referrers(v) {
+			switch x := r.(type) {
+			case *ssa.If:
+				return true
+			case *ssa.BinOp:
+				switch x.Op {
+				case token.EQL, token.NEQ, token.LSS, token.LEQ, token.GTR, token.GEQ:
+					return true
+				}
+			case *ssa.UnOp:
+				if x.Op == token.NOT {
+					return true
+				}
+			case *ssa.Call:
+				if bi, ok := x.Call.Value.(*ssa.Builtin); ok && bi.Name() == "len" {
+					return true
+				}
+			case *ssa.Phi:
+				if walk(x, d+1) {
+					return true
+				}
+			}
+		}
+		return false
+	}
+	r := walk(phi, 0)
+	relevantCache[phi] = r
+	return r
+}
